@@ -533,7 +533,7 @@ func runCeremony(r *vfw.Run, forC16 bool) {
 		}
 		// a participant who does not run the reference client sends its evidence transaction with a payload of its own
 		// making (the transaction validator does not look at the payload; it is read when the epoch is evaluated)
-		if live[0].App.State.ValidationPeriod() == state.LongSessionPeriod && r.Choose("cer.hostileevidence", 4) == 0 {
+		if live[0].App.State.ValidationPeriod() == state.LongSessionPeriod && r.ChooseOpt("cer.hostileevidence", 4) == 3 {
 			if el := s.Eligible(live); len(el) > 0 {
 				z := el[r.Choose("cer.hostileevidence.via", len(el))]
 				id := s.Ids[r.Choose("cer.hostileevidence.who", len(s.Ids))]
